@@ -8,6 +8,7 @@ public API of the real TypeMap under a 2 s deadline.  Soundness and completeness
 deviation (F12: look-ups stop at the first unresolved super-class name) is matched semantically by the design model.
 """
 import json
+import os
 
 from vlib import build_harness, log, ToolError, tlc, tlc_must_pass, run_batch, VH
 
@@ -16,15 +17,75 @@ RULE = ("case = (graph, query); graphs: all 15 625 graphs on 3 class names with 
         "non-trivial = graph has >= 1 edge; distinct by JSON")
 
 
-def meta_class(name, supers, declares):
+def meta_class(name, supers, declares, nonpublic="private"):
     c = {"className": name, "qualifiedClassName": name, "object": True,
-         "superClasses": [{"name": s["n"], "access": "public" if s["pub"] else "private"} for s in supers]}
+         # a base that is not public is private or protected: neither is inherited from in the sense of the property
+         "superClasses": [{"name": s["n"], "access": "public" if s["pub"] else nonpublic} for s in supers]}
     if declares:
         c["properties"] = [{"name": "p", "type": "int", "read": "p", "designable": True, "scriptable": True, "stored": True, "user": False,
                             "constant": False, "final": False, "required": False}]
         c["methods"] = [{"name": "m", "access": "public", "returnType": "void", "arguments": []}]
         c["enums"] = [{"name": "E", "isClass": False, "isFlag": False, "values": ["V", "W" + name]}]
     return c
+
+
+# graphs over two modules (the second imports the first): a name is resolved in the module of the class that uses it, then in what that module imports;
+# distinct classes may carry the same unqualified name.  node = "m.X" | "m2.X"; super-class lists use unqualified names, as metatypes do
+TWO_MODULE = [
+    {"m": {"Base": [], "A": ["Base"], "X": ["A"]}, "m2": {"A": ["X"], "Top": ["A"]}, "decl": ["m.Base", "m.A"]},
+    {"m": {"Base": [], "Frame": ["Base"], "Mid": ["Frame"]}, "m2": {"Frame": ["Mid"], "Titled": ["Frame"], "Deep": ["Titled"]}, "decl": ["m.Frame"]},
+    {"m": {"R": [], "A": ["R"], "B": ["A"]}, "m2": {"A": ["B"], "B": ["A"], "C": ["B"]}, "decl": ["m.R"]},
+    {"m": {"R": [], "A": ["R"], "L": ["A"], "Rr": ["A"]}, "m2": {"A": ["L", "Rr"], "D": ["A"]}, "decl": ["m.R", "m2.A"]},
+    {"m": {"P": [], "Q": []}, "m2": {"P": ["Q"], "Z": ["P"]}, "decl": ["m.P", "m.Q"]},
+]
+
+
+def two_module_family(chk):
+    recs = []
+    for n, g in enumerate(TWO_MODULE):
+        supers = {}
+        for mod in ("m", "m2"):
+            for c, ss in g[mod].items():
+                # resolution: own module first, then (for m2) the imported module
+                supers["%s.%s" % (mod, c)] = [{"n": ("%s.%s" % (mod, x)) if x in g[mod] else ("m.%s" % x), "pub": True} for x in ss]
+        recs.append({"id": n, "supers": supers, "decl": g["decl"]})
+    path = os.path.join(chk.work, "twomod.ndjson")
+    from vlib import write_ndjson
+    write_ndjson(path, recs)
+    t = tlc("TypeExpect", env={"RECS": path}, workers=1, timeout=600, coverage=False)
+    tlc_must_pass(t, "TypeExpect")
+    chk.add_tlc(t)
+    exp = {e["id"]: e for e in t.printed("TYPEEXPECT")}
+    reqs = []
+    hname = lambda node: ("m2:" + node[3:]) if node.startswith("m2.") else node[2:]
+    for n, g in enumerate(TWO_MODULE):
+        qs, meta = [], []
+        for d in exp[n]["derived"]:
+            if d["b"].startswith("m.") and d["b"][2:] in g["m2"]:
+                continue       # a class of the first module hidden behind a same-named class of the second cannot be named as the base from outside
+            qs.append({"q": "derived", "c": hname(d["c"]), "b": hname(d["b"])})
+            meta.append(("derived", d))
+        for o in exp[n]["owners"]:
+            qs.append({"q": "prop", "c": hname(o["c"]), "n": "p"})
+            meta.append(("prop", o))
+        reqs.append({"id": n, "classes": [meta_class(c, [{"n": x, "pub": True} for x in ss], "m.%s" % c in g["decl"]) for c, ss in g["m"].items()],
+                     "classes2": [meta_class(c, [{"n": x, "pub": True} for x in ss], "m2.%s" % c in g["decl"]) for c, ss in g["m2"].items()], "queries": qs, "_meta": meta})
+    out = run_batch([VH, "typemap"], [{k: v for k, v in q.items() if k != "_meta"} for q in reqs], procs=1, chunk=100)
+    for q in reqs:
+        o = out[q["id"]]
+        if o.get("timeout") or o.get("crash"):
+            chk.violation("a look-up on the two-module graph %d does not terminate / dies" % q["id"], {"graph": TWO_MODULE[q["id"]], "detail": o})
+            continue
+        for (kind, d), a in zip(q["_meta"], o["answers"]):
+            chk.count({"twomod": q["id"], "q": [kind, d.get("c"), d.get("b")]}, nontrivial=True)
+            if a.get("noclass"):
+                raise ToolError("two-module family: class not found: %s" % d)
+            if kind == "derived" and a["derived"] != d["holds"]:
+                chk.violation("%s.is_derived_from(%s) = %s, reflexive-transitive public inheritance says %s (two modules with same-named classes)" % (d["c"], d["b"], a["derived"], d["holds"]),
+                              {"graph": TWO_MODULE[q["id"]], "query": d, "observed": a})
+            if kind == "prop" and a.get("found", False) != bool(d["owners"]):
+                chk.violation("property look-up on %s: found=%s, the property admits owners %s (two modules with same-named classes)" % (d["c"], a.get("found"), d["owners"]),
+                              {"graph": TWO_MODULE[q["id"]], "query": d, "observed": a})
 
 
 def run(chk):
@@ -38,7 +99,7 @@ def run(chk):
     log("C17: %d graph configurations" % len(graphs))
     reqs = []
     for gi, g in enumerate(graphs):
-        classes = [meta_class(n, g["supers"][n], n in g["decl"]) for n in sorted(g["supers"])]
+        classes = [meta_class(n, g["supers"][n], n in g["decl"], "protected" if gi % 2 else "private") for n in sorted(g["supers"])]
         qs = []
         for d in g["derived"]:
             qs.append({"q": "derived", "c": d["c"], "b": d["b"]})
@@ -48,6 +109,7 @@ def run(chk):
         for d in g["common"]:
             qs.append({"q": "common", "c": d["a"], "b": d["b"]})
         reqs.append({"id": gi, "classes": classes, "queries": qs, "batches": 1 + gi % 3})      # the descriptions arrive in 1, 2 or 3 loads
+    two_module_family(chk)
     out = run_batch([VH, "typemap"], reqs, procs=12, chunk=100)
     for gi, g in enumerate(graphs):
         o = out[gi]
